@@ -237,6 +237,14 @@ def run_mdoc(c, out):
                 ok, _ = call(out, "Mdoc.write", lambda: m.write("tmpr_%d.mdoc" % step, overwrite=True, removed=True))
                 if not ok:
                     return
+                arg_form = ["list", "array", "file"][(step + len(pos)) % 3]
+                if arg_form == "array":
+                    arg = np.array(arg)
+                elif arg_form == "file":
+                    with open("idx_%d.txt" % step, "w") as fi:
+                        fi.write("".join(f"{v}\n" for v in arg))
+                    arg = "idx_%d.txt" % step
+                out.label(f"helper_remove_indices_as:{arg_form}", "from1" if o["from1"] else "from0")
                 ok, m = call(out, "mdoc.remove_images", lambda: md.remove_images("tmpr_%d.mdoc" % step, arg, numbered_from_1=o["from1"]))
                 if not ok:
                     return
